@@ -285,6 +285,8 @@ class Gen:
             cmp_ = " && ".join(f"{f} == o.{f}" for f in fields) or "true"
             out.append(f"    bool operator==(const {cls} &o) const {{ (void)o; return {cmp_}; }}")
             out.append(f"    bool operator!=(const {cls} &o) const {{ return !(*this == o); }}")
+            shown = ' + "," + '.join(f'std::string("{p["name"]}=") + verif::showValue({f})' for p, f in zip(c.get("properties", []), fields)) or '""'
+            out.append(f"    std::string vshow() const {{ return std::string(\"{{\") + {shown} + \"}}\"; }}")
         out.append("};")
         return out
 
